@@ -15,7 +15,7 @@ AXIOM_ALLOW = {
     'Coq.Logic.FunctionalExtensionality.functional_extensionality_dep',
     'functional_extensionality_dep',
 }
-FORBIDDEN = re.compile(r'\b(Admitted|admit|Axiom|Axioms|Parameter|Parameters|Conjecture|Hypothesis|Variable|Abort All)\b'
+FORBIDDEN = re.compile(r'\b(Admitted|admit|Axiom|Axioms|Parameter|Parameters|Conjecture|Hypothesis|Hypotheses|Variable|Variables|Context|Abort All)\b'
                        r'|Unset\s+Guard|bypass_check|type-in-type|impredicative-set|Admit\s+Obligations|Unset\s+Universe Checking|Unset\s+Positivity')
 
 
@@ -131,16 +131,23 @@ def audit_assumptions(prop):
 
 
 def lint_sources():
-    """no Admitted / admit / Axiom / Parameter / ... anywhere in the development"""
+    """no Admitted / admit / Axiom / Parameter / ... anywhere in the development; Variable / Hypothesis only inside a Section"""
     bad = []
     for f in coq_files():
         txt = (COQ / f).read_text()
         txt = re.sub(r'\(\*.*?\*\)', lambda m: re.sub(r'[^\n]', ' ', m.group(0)), txt, flags=re.S)
+        depth = 0
         for i, line in enumerate(txt.split('\n'), 1):
+            if re.match(r'\s*Section\s+\w+\s*\.', line):
+                depth += 1
             m = FORBIDDEN.search(line)
             if m:
-                # `Variable`/`Hypothesis` are allowed inside a Section only; we simply do not use them at all
-                bad.append('%s:%d: %s' % (f, i, m.group(0)))
+                if m.group(0) in ('Variable', 'Hypothesis', 'Variables', 'Hypotheses', 'Context') and depth > 0:
+                    pass
+                else:
+                    bad.append('%s:%d: %s' % (f, i, m.group(0)))
+            if re.match(r'\s*End\s+\w+\s*\.', line) and depth > 0:
+                depth -= 1
     return bad
 
 
